@@ -18,6 +18,10 @@ pub fn unescape_string(text: &str) -> String {
 pub fn decode_raw_bytes(filedata: &[u8]) -> String {
     crate::loader::verif::decode_raw_bytes(filedata)
 }
+/// the text of a file as `load` hands it to the tokenizer (decoded, byte order mark removed)
+pub fn load_text(path: &std::path::Path) -> Option<String> {
+    crate::loader::verif::load_text(path)
+}
 pub fn make_unique_name(
     current_name: &str,
     orig_map: &ItemList<Measurement>,
